@@ -464,7 +464,7 @@ def snap(
     1D-array of float
         distance between start and end cell
     """
-    idxs = np.full(idxs0.size, mv, dtype=idxs0.dtype)
+    idxs = np.full(idxs0.size, mv, dtype=idxs_nxt.dtype)
     dists = np.zeros(idxs0.size, dtype=np.float32)
     for i in range(idxs0.size):
         path, d = _trace(
